@@ -217,6 +217,11 @@ class LiaDomain:
         cx, cy = self.concrete(x), self.concrete(y)
         if cx is not None and cy is not None:
             return {"==": cx == cy, "!=": cx != cy, "<": cx < cy, "<=": cx <= cy, ">": cx > cy, ">=": cx >= cy}[op]
+        if isinstance(x, Poly) and isinstance(y, Poly):
+            d = x - y
+            if d.is_const():
+                c = d.const_val()
+                return {"==": c == 0, "!=": c != 0, "<": c < 0, "<=": c <= 0, ">": c > 0, ">=": c >= 0}[op]
         if op == "==":
             return ("=", x, y)
         if op == "!=":
@@ -424,7 +429,25 @@ class LiaDomain:
 
         body = []
         for h in hyps:
-            body.append("(assert %s)" % fterm(h))
+            if nia or not isinstance(h, tuple):
+                body.append("(assert %s)" % fterm(h))
+                continue
+            mk = _PRINT_MEMO.get(id(h))
+            if mk is not None and mk[0] is h:
+                body.append(mk[1])
+                mons.update(mk[2])
+                continue
+            before = set(mons)
+            txt = "(assert %s)" % fterm(h)
+            newm = {m_: v_ for m_, v_ in mons.items() if m_ not in before}
+            # monomials first seen in this hypothesis; those seen earlier in this query are recomputed below
+            allm = {}
+            _collect_monomials(h, allm)
+            if len(_PRINT_MEMO) > 1000000:
+                _PRINT_MEMO.clear()
+            _PRINT_MEMO[id(h)] = (h, txt, allm)
+            mons.update(allm)
+            body.append(txt)
         body.append("(assert (not %s))" % fterm(goal))
         used = set()
         for h in hyps + [goal]:
@@ -466,7 +489,38 @@ class LiaDomain:
         return "\n".join(lines).replace("(* -1 ", "(* (- 1) ")
 
 
+_ATOMS_MEMO = {}
+_PRINT_MEMO = {}
+
+
+def _collect_monomials(f, out):
+    if isinstance(f, Poly):
+        for m in f.t:
+            if len(m) >= 2:
+                out[m] = "|m!%s|" % "*".join(m)
+    elif isinstance(f, tuple):
+        for g in f[1:]:
+            _collect_monomials(g, out)
+
+
+
 def formula_atoms(f):
+    if isinstance(f, Poly):
+        return f.atoms()
+    if isinstance(f, tuple) and len(f) > 1:
+        k = id(f)
+        r = _ATOMS_MEMO.get(k)
+        if r is not None and r[0] is f:
+            return r[1]
+        r = _formula_atoms(f)
+        if len(_ATOMS_MEMO) > 2000000:
+            _ATOMS_MEMO.clear()
+        _ATOMS_MEMO[k] = (f, r)
+        return r
+    return _formula_atoms(f)
+
+
+def _formula_atoms(f):
     if isinstance(f, Poly):
         return f.atoms()
     if isinstance(f, tuple):
@@ -489,6 +543,9 @@ def formula_atoms(f):
     return set()
 
 
+WIDE = 48
+
+
 def slice_context(hyps, goal):
     """cone of influence: keep hypotheses transitively sharing a variable with the goal"""
     want = set(formula_atoms(goal))
@@ -502,7 +559,9 @@ def slice_context(hyps, goal):
         for i, vs in enumerate(hv):
             if not keep[i] and (vs & want or not vs):
                 keep[i] = True
-                if not vs <= want:
+                # a very wide hypothesis (a sum over a whole digit array, say) is kept but does not make
+                # everything it mentions relevant
+                if not vs <= want and len(vs) <= WIDE:
                     want |= vs
                     changed = True
     return [h for h, k in zip(hyps, keep) if k]
